@@ -42,6 +42,43 @@ def check_loop_scan(rep, prog, cb, loop_blocks):
                 continue
             t = df.strip(l[1])
             seen.append(cnd.lit_canon(l, cb))
+            if t[0] == "call" and t[2] in ("map_or", "is_some_and") and len(t[3]) >= 2:
+                # `tlv_opt.map_or(false, |tlv| tlv.value.chunks_exact(8).any(..))`: look into the closure
+                clo = df.strip(t[3][-1])
+                dflt_ok = t[2] == "is_some_and" or df.strip(t[3][1]) == ("const", False)
+                if dflt_ok and clo[0] == "agg" and str(clo[1]).startswith("closure:"):
+                    inner = [x for x in cb.unit.bodies.values() if x.is_closure and (x.j.get("key") == clo[1][8:] or x.key == clo[1][8:])]
+                    if inner:
+                        ib = inner[0]
+                        ipv = df.Prov(ib, captures=dict(clo[3]))
+                        idefs = df.defs(ib)
+                        for bi2, t2, c2 in mir.iter_calls(ib, name="any"):
+                            if "<ChunksExact as " not in df.strip(ipv.call_tree(t2))[1] or t2["dest"]["l"] != 0:
+                                continue
+                            it2 = mir.op_place(t2["args"][0])
+                            src2 = None
+                            if it2 is not None:
+                                l2 = it2["l"]
+                                # &mut temp -> the iterator local -> its defining chunks_exact call
+                                for _ in range(3):
+                                    ds2 = idefs.whole.get(l2, [])
+                                    if len(ds2) == 1 and ds2[0][2][0] == "assign" and ds2[0][2][1]["k"] == "ref":
+                                        l2 = ds2[0][2][1]["p"]["l"]
+                                        continue
+                                    break
+                                ds2 = idefs.whole.get(l2, [])
+                                if len(ds2) == 1 and ds2[0][2][0] == "call":
+                                    src2 = df.strip(ipv.call_tree(ds2[0][2][1]))
+                            if src2 is None or src2[0] != "call" or src2[2] != "chunks_exact":
+                                continue
+                            base2, width2 = df.canon(src2[3][0], ib), df.canon(src2[3][1], ib)
+                            caps2 = df.canon(ipv.op_tree(t2["args"][1]), ib)
+                            if re.search(r"\.value\)*$", base2) and not any(x in base2 for x in ("index", "Range", "split", "get(")) \
+                                    and width2 == "8" and "clock_identity" in caps2:
+                                ok = True
+                                rep.ok("TLV-3", cb.key, "loop check scans the whole received path",
+                                       detail={"iterator": "chunks_exact(%s, 8)" % base2, "via": t[2]}, where=cb.loc())
+                continue
             if t[0] != "call" or t[2] != "any" or "<ChunksExact as " not in t[1] or len(t[3]) != 2:
                 continue
             it = df.strip(t[3][0])
